@@ -922,39 +922,62 @@ inductive RecsOf (render : Nat → Text) : List (Nat × Nat × Text) → List (T
   | nil : RecsOf render [] []
   | cons {t f ts fs} : RecOf render t f → RecsOf render ts fs → RecsOf render (t :: ts) (f :: fs)
 
-/-- **Field-level slicer, EVERY padding** (`_partial`: the two `split`s and `direct_parse_key` that
-produce the fields from the raw text are not covered by a theorem — they are run against the real
-functions character by character).  `render` is Python's `str(int)`: any injective rendering.
-Whatever brackets, blanks, newlines or tabs surround the three fields of each record, the slicer
-keeps exactly the records whose row (column) index is kept and renames that index to its rank. -/
-theorem slice_fields_eq_partial (render : Nat → Text) (hinj : ∀ a b, render a = render b → a = b)
+/-- **Field-level slicer, sample axis, EVERY padding** (`_partial`: the two `split`s and
+`direct_parse_key` that produce the fields from the raw text are not covered by a theorem — they
+are run against the real functions character by character).  `render` is Python's `str(int)`: any
+injective rendering.  Whatever brackets, blanks, newlines or tabs surround the three fields of each
+record, the slicer keeps exactly the records whose column index is kept and renames that index to
+its rank. -/
+theorem slice_fields_samp_eq_partial (render : Nat → Text) (hinj : ∀ a b, render a = render b → a = b)
     (triples : List (Nat × Nat × Text)) (recs : List (Text × Text × Text))
     (h : RecsOf render triples recs) (sk : List Nat) :
-    sliceFields render recs sk .obs =
-        (triples.filter (fun t => sk.contains t.1)).map
-          (fun t => (render (sk.idxOf t.1), render t.2.1, t.2.2)) ∧
     sliceFields render recs sk .samp =
         (triples.filter (fun t => sk.contains t.2.1)).map
           (fun t => (render t.1, render (sk.idxOf t.2.1), t.2.2)) := by
   induction h with
-  | nil => exact ⟨rfl, rfl⟩
+  | nil => rfl
   | cons hrec _ ih =>
     obtain ⟨h1, h2, h3⟩ := hrec
     have e1 := stripF_padded _ _ h1
     have e2 := stripF_padded _ _ h2
     have e3 := stripF_padded _ _ h3
-    obtain ⟨ih1, ih2⟩ := ih
-    simp only [sliceFields] at ih1 ih2 ⊢
-    constructor
-    · simp only [List.filter_cons, e1, contains_map_inj render hinj]
-      split
-      · simp only [List.map_cons, e1, e2, e3, idxOf_map_inj render hinj, ih1]
-      · exact ih1
-    · simp only [List.filter_cons, e2, contains_map_inj render hinj]
-      split
-      · simp only [List.map_cons, e1, e2, e3, idxOf_map_inj render hinj, ih2]
-      · exact ih2
+    simp only [sliceFields] at ih ⊢
+    simp only [List.filter_cons, e2, contains_map_inj render hinj]
+    split
+    · simp only [List.map_cons, e1, e2, e3, idxOf_map_inj render hinj, ih]
+    · exact ih
 
+/-- **Field-level slicer, observation axis** (`_partial`): the same, under the extra guard that no
+row field carries padding AFTER the number (the path tests the left-stripped field; Python's `json`
+never writes a blank before a comma). -/
+theorem slice_fields_obs_eq_partial (render : Nat → Text) (hinj : ∀ a b, render a = render b → a = b)
+    (triples : List (Nat × Nat × Text)) (recs : List (Text × Text × Text))
+    (h : RecsOf render triples recs) (hnotrail : ∀ f ∈ recs, lstripF f.1 = stripF f.1) (sk : List Nat) :
+    sliceFields render recs sk .obs =
+        (triples.filter (fun t => sk.contains t.1)).map
+          (fun t => (render (sk.idxOf t.1), render t.2.1, t.2.2)) := by
+  induction h with
+  | nil => rfl
+  | cons hrec _ ih =>
+    obtain ⟨h1, h2, h3⟩ := hrec
+    have e1 := stripF_padded _ _ h1
+    have e2 := stripF_padded _ _ h2
+    have e3 := stripF_padded _ _ h3
+    have e0 := hnotrail _ List.mem_cons_self
+    have ih' := ih (fun f hf => hnotrail f (List.mem_cons_of_mem _ hf))
+    simp only [sliceFields] at ih' ⊢
+    simp only [List.filter_cons, e0, e1, contains_map_inj render hinj]
+    split
+    · simp only [List.map_cons, e1, e2, e3, idxOf_map_inj render hinj, ih']
+    · exact ih'
+
+/-- the guard is needed: a blank between the row number and the comma (`[0 ,1,5]`, valid JSON)
+makes the observation path drop the record -/
+theorem slice_fields_obs_trailing_blank_witness :
+    sliceFields (fun n => (List.replicate n 'i')) [(['[', 'i', ' '], ['i'], ['5', ']'])] [1] .obs = [] ∧
+    sliceFields (fun n => (List.replicate n 'i')) [(['[', 'i', ' '], ['i'], ['5', ']'])] [1] .samp =
+      [(['i'], [], ['5'])] := by
+  constructor <;> decide
 
 /-! ## Witnesses: where the raw-text scanner leaves the property's domain (recorded findings) -/
 
@@ -1028,12 +1051,13 @@ theorem exF_ok_obs : H5.OK exF .obs :=
 example : h5Subset exF ["S3", "S1"] .samp =
     .ok { obs := ["O1", "O2"], samp := ["S1", "S3"], rows := [[1, 0], [0, 4]],
           omd := some [[("k", "\"a\"")], [("k", "\"b\"")]], smd := none, ttype := some "OTU table" } := by
-  decide
+  rw [h5subset_eq exF _ _ exF_ok_samp.wf (by decide) (by decide) (by decide)]; decide
 
 /-- keeping S1 empties O2, which the default path drops and the metadata-free variant keeps -/
 example : h5Subset exF ["S1"] .samp =
     .ok { obs := ["O1"], samp := ["S1"], rows := [[1]],
-          omd := some [[("k", "\"a\"")]], smd := none, ttype := some "OTU table" } := by decide
+          omd := some [[("k", "\"a\"")]], smd := none, ttype := some "OTU table" } := by
+  rw [h5subset_eq exF _ _ exF_ok_samp.wf (by decide) (by decide) (by decide)]; decide
 
 example : h5SubsetNoMd exF ["S1"] .samp =
     .ok { obs := ["O1", "O2"], samp := ["S1"], rows := [[1], [0]], omd := none, smd := none,
@@ -1041,10 +1065,13 @@ example : h5SubsetNoMd exF ["S1"] .samp =
 
 example : h5Subset exF ["O2"] .obs =
     .ok { obs := ["O2"], samp := ["S2", "S3"], rows := [[3, 4]],
-          omd := some [[("k", "\"b\"")]], smd := none, ttype := some "OTU table" } := by decide
+          omd := some [[("k", "\"b\"")]], smd := none, ttype := some "OTU table" } := by
+  rw [h5subset_eq exF _ _ exF_ok_obs.wf (by decide) (by decide) (by decide)]; decide
 
-example : h5Subset exF ["S1", "nope"] .samp = .error .value := by decide
-example : h5Subset exF ["S1", "S1"] .samp = .error .value := by decide
+example : h5Subset exF ["S1", "nope"] .samp = .error .value :=
+  h5subset_unknown_refused exF _ .samp (by decide) "nope" (by decide) (by decide)
+example : h5Subset exF ["S1", "S1"] .samp = .error .value :=
+  h5subset_repeated_refused exF _ .samp (by decide) (by decide)
 example : h5SubsetNoMd exF ["S1", "nope"] .samp = .error .value := by decide
 
 /-- the two matrix groups of the example describe the same table -/
@@ -1081,13 +1108,13 @@ example : MdUniform (exD.recs .obs) := Or.inr (by decide)
 example : cmdJson exD ["S3", "S1"] .samp =
     .ok { obs := ["O1", "O2"], samp := ["S1", "S3"], rows := [[1, 0], [0, 4]],
           omd := some [[("k", "\"a\"")], [("k", "\"b\"")]], smd := none, ttype := some "OTU table" } := by
-  decide
+  rw [cmd_json_eq exD _ .samp exD_ok.wf (Or.inl (by decide)) (by decide) (by decide)]; decide
 
 /-- the command keeps the emptied observation (documented), `parse_table(ids=…)` drops it -/
 example : cmdJson exD ["S1"] .samp =
     .ok { obs := ["O1", "O2"], samp := ["S1"], rows := [[1], [0]],
           omd := some [[("k", "\"a\"")], [("k", "\"b\"")]], smd := none, ttype := some "OTU table" } := by
-  decide
+  rw [cmd_json_eq exD _ .samp exD_ok.wf (Or.inl (by decide)) (by decide) (by decide)]; decide
 
 example : jsonSubset exD ["S1"] .samp =
     .ok { obs := ["O1"], samp := ["S1"], rows := [[1]],
